@@ -23,14 +23,16 @@ func init() { log.Root().SetHandler(log.DiscardHandler()) }
 const Rule = "a producer node builds a canonical chain of 3..12 (thorough ..22) blocks with account/contract transactions (txgen), 1-4 (thorough ..7) validators of tape-drawn powers " +
 	"(equal, small, one dominant at/around exactly 2/3, totals divisible by 3, large), every block committed by a tape-drawn > 2/3 subset in a tape-drawn common round, plus 0-2 well-formed, executable, never-committed " +
 	"alternative blocks per height; a fresh node then fast-syncs from 1-4 (thorough ..5) simulated peers: honest (whole chain or lagging), Byzantine (one attack point per session: " +
-	"never-committed block for H + genuine H+1; genuine H + an H+1 whose LastCommit is below/exactly at 2/3, mixes rounds, holds prevotes, repeats one validator, is signed by non-validators, " +
-	"for another height or chain, nil-only, bit-flipped, with or without a recomputed LastCommitHash; a forged fork H,H+1 signed by < 1/3 or unknown keys; a block for another height; undecodable, truncated, " +
-	"degenerate or (thorough) oversize bytes; silence; 'no such block'; valid variants: another quorum subset, relabelled commit, fabricated successor of the top block) and stallers (claims up to 3 above the chain); " +
-	"the simulator delays, drops and duplicates responses, disconnects and reconnects peers, lets the pool time peers out, answers the 10 s status requests with tape-chosen claims; after the faulty phase " +
-	"(5-45 s, thorough ..205 s of virtual time) only an honest peer with the whole chain remains (not in the 1-in-10 runs with only Byzantine peers). After EVERY delivered message and every 100 ms step: " +
-	"every (block, votes) pair handed to CommitBlock must be a commit by the rig's own reading of the statement (> 2/3 of the power of the set in force, ed25519 signatures verified with crypto/ed25519 over the sign-bytes of a reference " +
-	"precommit for exactly that block id, height, one round, this chain id; math/big threshold) and the block must be the canonical one; every stored block is byte-identical to the canonical block, its seen-commit and block-commit " +
-	"are commits; at the end execution results (state hash, receipt hash, gas, trie root) and the consensus status equal the producer's, and the status handed to the consensus reactor names the canonical block. " +
+	"(a) a never-committed block for H - another proposal (other time / fewer / no transactions), or the canonical block with the recover flag, time or coinbase changed, or the canonical header over another LastCommit or other evidence - followed by the genuine H+1; " +
+	"(b) the genuine H followed by an H+1 whose LastCommit is below / exactly at 2/3, mixes rounds, holds prevotes (also relabelled), repeats one validator in every slot, is signed by non-validators (also impersonating), " +
+	"for another height or chain, nil-only, bit-flipped, or absent, with or without a recomputed LastCommitHash; (c) a block for another height (near, far); (d) truncated, bit-flipped, trailing, short, unknown-prefix, empty-block or (thorough) oversize bytes; " +
+	"(e) a forged fork H,H+1 signed by validators holding < 1/3 or by unknown keys; also silence, 'no such block', and valid variants that must not hurt: another quorum subset / next round, relabelled commit, extra or missing slot, a successor without transactions part, a fabricated successor of the top block) " +
+	"and stallers (claims up to 3 above the chain); the simulator owns delivery: it delays, drops and duplicates responses, disconnects and reconnects peers, lets the pool time peers out (40 s rate rule, 120 s silence rule), answers the 10 s status requests " +
+	"with tape-chosen claims, lets peers ask the node for status and blocks; after the faulty phase (5-45 s, thorough ..205 s of virtual time) only an honest peer with the whole chain remains (not in the 1-in-10 runs with only Byzantine peers). " +
+	"After EVERY delivered message and every 100 ms step: every (block, votes) pair handed to CommitBlock must be a commit by the rig's own reading of the statement (> 2/3 of the power of the set in force, signers identified by crypto/ed25519 verification over the sign-bytes of a reference " +
+	"precommit for exactly that block id, height, one round, this chain id; each validator once per round; math/big threshold) and the block must be the canonical one; every stored block is byte-identical to the canonical block, its seen-commit and block-commit " +
+	"are commits; at the end execution results (state hash, receipt hash, gas, trie root) and the consensus status equal the producer's, and the status handed to the consensus reactor names the canonical block and carries the producer's validator set incl. proposer priorities. " +
+	"Two survivable probes per process (VerifyCommit(nil); refused recover-flag block, status read through the hand-over) report the two process-killing defects found with this rig under stable keys instead of generating their inputs. " +
 	"Non-trivial: >= 2 blocks were committed through the reactor and >= 1 bogus response was sent or refused. Fingerprint: configuration + sequence of event classes + final height."
 
 // Real lists what runs real code.
@@ -47,6 +49,7 @@ var Assumptions = []string{
 	"fast-sync part: the validator set is the genesis set throughout (white list, no elections); KeepFastSync(true) during the run, the hand-over to consensus is taken at the end (IsCaughtUp racing the sync ticker at whole seconds is not a function of the tape)",
 	"fast-sync part: BlockPool picks among equally loaded peers in Go map order: the simulator lets a second peer become eligible only when the first one has taken all heights it can serve, and never a third (otherwise the assignment of heights to peers would not be a function of the tape); responses are bound to (peer, height), so cross-peer pairs (H from A, H+1 from B) arise only through hand-over after a removal or through a higher claim",
 	"fast-sync part: liveness (sync completes once only an honest peer remains) and 'a refused peer is dropped' are reported as probes (sync-complete / sync-incomplete, peer-stopped-*), not as violations: the statement is about what may be accepted",
+	"fast-sync part: a run executes on one P with the collector off (GOMAXPROCS(1), SetGCPercent(-1), restored afterwards): BlockPool.RedoRequest re-reads request.peerID after removePeer has told the requester to reset it, and a requester parked between taking its redo signal and resetting gets a stale second signal from the second removePeer of the same peer - both outcomes depend on the scheduler, not on the tape; messages are delivered 5-45 ms after a multiple of 100 ms of the node's life so that no message arrives at an instant at which two of the reactor's tickers are due (select picks at random); identical requests observed at one instant are answered once",
 }
 
 // Describe returns the part as a rig of its own (tests, diagnostics).
